@@ -112,8 +112,9 @@ func (s *poolScn) line() string {
 //
 // Low-Latency (fmt=ll, nseg = number of preload hints the origin will ever advertise): the stream downloader
 // never fetches a segment; per stream it fetches its playlist (unless primary), the init segment, and then
-// alternates "preload hint" / "playlist reload" — nseg times each; the last reload no longer carries a hint and
-// ends the stream with the fatal error "preload hint disappeared".
+// alternates "preload hint" / "playlist reload" — nseg times each; the last reload carries ENDLIST and no hint: the
+// stream is over (fix-F28: nil marker, ErrClientEOS once every stream ended; upstream the loop had no end-of-stream
+// path and failed with "preload hint disappeared", defect F28).
 func (s *poolScn) nreq() int {
 	if s.format == "ll" {
 		per := 1 + 2*s.nseg
@@ -361,9 +362,10 @@ func (srv *poolServer) RoundTrip(req *http.Request) (*http.Response, error) {
 	frozen := srv.frozen
 	if s := srv.scn; s.format == "ll" && (((s.closeAt == "held" || s.closeAt == "req") && idx == s.cidx) ||
 		((s.fault == "stall" || s.fault == "status" || s.fault == "transport") && idx == s.fidx)) {
-		// with two independent Low-Latency streams the other one would otherwise run to its end ("preload hint
-		// disappeared", a few microseconds of requests away) while this request is held / stalls / its failure is
-		// still on its way to the owner of the pool: which fatal error is "first" would be a coin toss
+		// with two independent Low-Latency streams the other one would otherwise run to its end (a few
+		// microseconds of requests away; upstream that end was itself a fatal error, "preload hint disappeared")
+		// while this request is held / stalls / its failure is still on its way to the owner of the pool: which
+		// fatal error is "first" would be a coin toss
 		srv.frozen = true
 	}
 	srv.mu.Unlock()
